@@ -116,7 +116,10 @@ static OpRes op_group(Case &c, Draw &d, hwloc_topology_t t, const OpOpts &o) {
   // with a nodeset the tree does not justify (the helper hwloc_obj_add_other_obj_sets() on a CPU-less node builds such a Group too)
   if (!o.allow_cpuless_nodeset_group) { bool hit = false;
     for (hwloc_obj_t n = NULL; (n = hwloc_get_next_obj_by_type(t, HWLOC_OBJ_NUMANODE, n));) if (hwloc_bitmap_iszero(n->cpuset)) { if (g->nodeset && hwloc_bitmap_isset(g->nodeset, n->os_index)) { hwloc_bitmap_clr(g->nodeset, n->os_index); hit = true; } if (g->complete_nodeset && hwloc_bitmap_isset(g->complete_nodeset, n->os_index)) { hwloc_bitmap_clr(g->complete_nodeset, n->os_index); hit = true; } }
-    if (hit) { c.excluded("F-C02-d"); from += "(cpu-less nodes removed)"; } }
+    // same root cause when the helper is used on a CPU-less normal object: its nodeset holds nodes whose CPUs are not in the Group's cpuset
+    // ("both, if compatible"): nodes whose cpuset is disjoint from a non-empty requested cpuset are removed as well
+    if (g->cpuset && !hwloc_bitmap_iszero(g->cpuset)) for (hwloc_obj_t n = NULL; (n = hwloc_get_next_obj_by_type(t, HWLOC_OBJ_NUMANODE, n));) if (!hwloc_bitmap_intersects(n->cpuset, g->cpuset)) { if (g->nodeset && hwloc_bitmap_isset(g->nodeset, n->os_index)) { hwloc_bitmap_clr(g->nodeset, n->os_index); hit = true; } if (g->complete_nodeset && hwloc_bitmap_isset(g->complete_nodeset, n->os_index)) { hwloc_bitmap_clr(g->complete_nodeset, n->os_index); hit = true; } }
+    if (hit) { c.excluded("F-C02-d"); from += "(nodes outside the cpuset's locality removed)"; } }
   g->attr->group.kind = d.chance(2, 3) ? 0 : d.range(1, 5); g->attr->group.subkind = d.range(0, 3);
   if (d.chance(1, 5)) { if (o.allow_dont_merge) g->attr->group.dont_merge = 1; else c.excluded("F-C02-a"); }
   if (d.chance(1, 3)) hwloc_obj_add_info(g, "GroupInfo", "v");
